@@ -30,6 +30,10 @@ KINDS = {
     'compile_continue': (['>>> continue'], 'SyntaxError', 0),
     'compile_nonlocal': (['>>> nonlocal qq'], 'SyntaxError', 0),
     'compile_dupdarg': (['>>> def dd(a, a):', '...     pass'], 'SyntaxError', 0),
+    # a SyntaxError raised at *run time* by code the doctest calls (its own line number is that of the inner
+    # source, not of the doctest statement)
+    'rt_syntax_exec': (['>>> src = chr(10).join(["a = 1", "b = 2", "c = 3", "d = ("])', '>>> exec(src)'], 'SyntaxError', 1),
+    'rt_syntax_compile': (['>>> compile(chr(10).join(["x = 1", "", "", "", "y = = 2"]), "inner.py", "exec")'], 'SyntaxError', 0),
     'badrepr': (['>>> BadRepr()', 'zzz'], 'ExtractGotReprException', 0),
     'badrepr_nowant_print': (['>>> print(BadRepr())'], 'RuntimeError', 0),
     'baddirective': (['>>> x = 1  # xdoctest: +REQUIRES(bogus)'], 'Exception', 0),
